@@ -141,6 +141,14 @@ Proof. exact source_db_get_timestamps. Qed.
 Theorem C07_source_db_tag_values_exact : forall d ks m, DInv d -> canon_dict (DbGetGen.gen_db_get_tag_values (db_prelude d) ks m) = spec_tag_values ks m (db_rows d).
 Proof. exact source_db_get_tag_values. Qed.
 
+(* len(handle): Measurement.__len__ compiled from tinyflux/measurement.py (self._db the database object, self._name the handle's name): the postings of
+   the name in the index's measurement map when the index is used, a count over storage otherwise - the model's handle length, hence the number of
+   stored points of that measurement *)
+Theorem C07_source_handle_len_is_the_model : forall E C norm d name, ONat (DbGetGen.gen_meas___len__ d name) = snd (handle_step E C norm (abs_db d) name HLen).
+Proof. exact source_handle_len_is_the_model. Qed.
+Theorem C07_source_handle_len_exact : forall d name, DInv d -> DbGetGen.gen_meas___len__ d name = length (filter (fun p => str_eqb (p_meas p) name) (db_rows d)).
+Proof. exact source_handle_len_exact. Qed.
+
 Print Assumptions C07_source_index_len_is_the_model.
 Print Assumptions C07_source_index_valid_is_the_model.
 Print Assumptions C07_source_index_measurements_is_the_model.
@@ -165,3 +173,5 @@ Print Assumptions C07_source_db_tag_keys_exact.
 Print Assumptions C07_source_db_field_values_exact.
 Print Assumptions C07_source_db_timestamps_exact.
 Print Assumptions C07_source_db_tag_values_exact.
+Print Assumptions C07_source_handle_len_is_the_model.
+Print Assumptions C07_source_handle_len_exact.
